@@ -85,6 +85,7 @@ where
             (0, _) => Strat::Random { sw: 0 },
             // the thread with the preset counter is the victim: whole writes land between its steps
             (1, 0) | (2, 0) => Strat::Adversary { victim: if cfg.situation == 1 { 0 } else { 1 }, k: srng.range(1, 2) as u32, p: *srng.pick(&[4, 8, 16]) },
+            (_, 1) => Strat::Windows { p_in: *srng.pick(&[8, 12, 16]), p_out: *srng.pick(&[0, 1, 2]) },
             _ => Strat::Random { sw: *srng.pick(&[2, 4, 8, 16]) },
         };
         sched::token_prepare(nt, cfg.sseed, s.clone(), cfg.record);
